@@ -9,6 +9,7 @@ CONSTANTS
   FixLock = TRUE
   FixInit = TRUE
   FixIsSet = FALSE
+  DetTime = FALSE
   Locked = TRUE
 PROPERTY IsSetRight
 CHECK_DEADLOCK FALSE
